@@ -124,9 +124,12 @@ class F:
     """Physical field.  start/size: int or function(fields)->M; cond: function(fields)->MB or None;
     requires: function(this M, fields)->MB or None; order: "LE"/"BE" or None (structure default)."""
 
-    def __init__(self, name, start, size, type, cond=None, order=None, requires=None, bits=None):
+    def __init__(self, name, start, size, type, cond=None, order=None, requires=None, bits=None, path=None, contribute=True, observe=True):
         self.name, self.start, self.size, self.type, self.cond, self.order, self.requires = name, start, size, type, cond, order, requires
-        self.bits = bits          # (offset_in_bits, size_in_bits) inside the parent bits container
+        self.bits = bits          # (bit offset, bit width) inside the container [start, start+size): a member of a `bits`
+        self.path = path or [name]    # C++ accessor path, e.g. ["inner", "a"] for v.inner().a()
+        self.contribute = contribute  # counts towards the structure's size (members of containers do not: the container does)
+        self.observe = observe
         self.virtual = False
 
 
@@ -136,6 +139,9 @@ class V:
     def __init__(self, name, expr, cond=None, requires=None, boolean=False, writable=None):
         self.name, self.expr, self.cond, self.requires, self.boolean = name, expr, cond, requires, boolean
         self.virtual = True
+        self.path = [name]
+        self.observe = True
+        self.contribute = False
         self.writable = writable      # for C03: ("transform", inverse function) | ("alias", field name)
 
 
@@ -194,6 +200,10 @@ def eval_struct(spec, mem, n, base_ok, params, base_off=None):
                     raise ValueError("scalar field %s needs a constant size in the spec" % f.name)
                 raw = (load_be if order == "BE" else load_le)(mem, base_off + start.val, nb)
                 w = 8 * nb
+                if f.bits is not None:
+                    boff, bw = f.bits
+                    raw = z3.Extract(boff + bw - 1, boff, raw)
+                    w = bw
                 if f.type.kind == "Int" or (f.type.kind == "Enum" and f.type.signed):
                     val = z3.SignExt(64 - w, raw) if w < 64 else raw
                 elif f.type.kind == "Bcd":
@@ -209,12 +219,15 @@ def eval_struct(spec, mem, n, base_ok, params, base_off=None):
                 if f.requires:
                     ok = z3.And(ok, f.requires(this, fs).true())
                 reading = M(ok, val)
+                if f.type.kind == "Flag":
+                    reading = MB(ok, val != 0)
                 info.update(ok=ok, value=val, is_bool=False)
             else:
                 ok = z3.And(present, avail)
                 reading = M(False, 0)
                 info.update(ok=ok, value=None, is_bool=False)
-            ends.append(choice(cond, start + size, 0))
+            if f.contribute:
+                ends.append(choice(cond, start + size, 0))
         fs._v[f.name] = reading
         fs._present[f.name] = cond
         out["fields"][f.name] = info
@@ -257,19 +270,33 @@ def make_view_expr(spec, ptr="p", size="n", params=("a0", "a1")):
     return "::%s::Make%sView(%s%s, %s)" % (spec.ns, spec.name, ps, ptr, size)
 
 
+def _acc(f):
+    """C++ expressions for a field: (guard that the parents exist, has-expression, accessor-expression)."""
+    parent = "v"
+    guards = []
+    for seg in f.path[:-1]:
+        guards.append("%s.has_%s().ValueOr(false)" % (parent, seg))
+        parent = "%s.%s()" % (parent, seg)
+    return (" && ".join(guards) or "true", "%s.has_%s()" % (parent, f.path[-1]), "%s.%s()" % (parent, f.path[-1]))
+
+
 def read_wrapper(spec):
     s = "  auto v = %s;\n" % make_view_expr(spec)
     s += "  O(0, v.Ok()); O(1, v.IsComplete()); O(2, v.SizeIsKnown());\n  if (v.SizeIsKnown()) O(3, v.SizeInBytes());\n"
     for i, f in enumerate(spec.fields):
+        if not f.observe:
+            continue
         b = PROBE_BASE + PROBE_STRIDE * i
-        s += "  O(%d, v.has_%s().Known());\n  if (v.has_%s().Known()) O(%d, v.has_%s().Value());\n" % (b, f.name, f.name, b + 1, f.name)
-        s += "  if (v.has_%s().ValueOr(false)) {\n" % f.name
+        guard, has, acc = _acc(f)
+        s += "  if (%s) {\n" % guard
+        s += "    O(%d, %s.Known());\n    if (%s.Known()) O(%d, %s.Value());\n" % (b, has, has, b + 1, has)
+        s += "    if (%s.ValueOr(false)) {\n" % has
         if f.virtual or f.type.kind != "Bytes":
             # (for arrays, Ok() means "the part that is there is consistent"; completeness is observed at structure level)
-            s += "    O(%d, v.%s().Ok());\n" % (b + 2, f.name)
+            s += "      O(%d, %s.Ok());\n" % (b + 2, acc)
         if f.virtual or f.type.kind in ("UInt", "Int", "Bcd", "Enum", "Flag"):
-            s += "    if (v.%s().Ok()) O(%d, %s);\n" % (f.name, b + 3, cpp_cast_u64(f, "v.%s().Read()" % f.name))
-        s += "  }\n"
+            s += "      if (%s.Ok()) O(%d, %s);\n" % (acc, b + 3, cpp_cast_u64(f, "%s.Read()" % acc))
+        s += "    }\n  }\n"
     s += "  return 0;"
     return s
 
@@ -291,11 +318,18 @@ def contract_read(k, spec_ref):
     k.ensures("SizeIsKnown", k.obs_flag(2, ref["size_known"]))
     k.ensures("SizeInBytes", k.obs_eq(3, ref["size_known"], ref["size"]))
     for i, f in enumerate(spec.fields):
+        if not f.observe:
+            continue
         b = PROBE_BASE + PROBE_STRIDE * i
         info = ref["fields"][f.name]
-        k.ensures("has_%s.Known" % f.name, k.obs_flag(b, info["has_known"]))
-        k.ensures("has_%s.Value" % f.name, z3.Implies(info["has_known"], z3.And(k.outc(b + 1), (k.outv(b + 1) != 0) == info["has_value"])))
-        present = z3.And(info["has_known"], info["has_value"])
+        # members of a named container are reached through the container's accessor: guarded by its presence
+        guard = z3.BoolVal(True)
+        for seg in f.path[:-1]:
+            pinfo = ref["fields"][seg]
+            guard = z3.And(guard, pinfo["has_known"], pinfo["has_value"])
+        k.ensures("has_%s.Known" % f.name, z3.Implies(guard, k.obs_flag(b, info["has_known"])))
+        k.ensures("has_%s.Value" % f.name, z3.Implies(z3.And(guard, info["has_known"]), z3.And(k.outc(b + 1), (k.outv(b + 1) != 0) == info["has_value"])))
+        present = z3.And(guard, info["has_known"], info["has_value"])
         if f.virtual or f.type.kind != "Bytes":
             k.ensures("%s.Ok" % f.name, z3.Implies(present, z3.And(k.outc(b + 2), (k.outv(b + 2) != 0) == info["ok"])))
         if info["value"] is not None:
@@ -305,6 +339,19 @@ def contract_read(k, spec_ref):
             k.ensures("%s.Read" % f.name, k.obs_eq(b + 3, z3.And(present, info["ok"]), want))
     a = k.forall_off()
     k.ensures("read-only", z3.Implies(z3.ULT(a, k.n), z3.Select(k.P1, a) == z3.Select(k.P0, a)))
+    # Prefix monotonicity (last sentence of C01): a lemma over the contract.  The view was just proved equal to
+    # the reference for every buffer length, so it suffices that the REFERENCE is monotone: with the same bytes
+    # and any longer length n2 >= n, whatever is known at n is known with the same value at n2.
+    n2 = k.forall_bv("n2", 64)
+    ref2 = eval_struct(spec, k.P0, n2, k.p != 0, params)
+    longer = z3.And(z3.UGE(n2, k.n), z3.ULT(n2, bv(1 << 59, 64)))
+    mono = [z3.Implies(ref["size_known"], z3.And(ref2["size_known"], ref2["size"] == ref["size"]))]
+    for f in spec.fields:
+        i1, i2 = ref["fields"][f.name], ref2["fields"][f.name]
+        mono.append(z3.Implies(i1["has_known"], z3.And(i2["has_known"], i2["has_value"] == i1["has_value"])))
+        if i1["value"] is not None:
+            mono.append(z3.Implies(z3.And(i1["has_known"], i1["has_value"], i1["ok"]), z3.And(i2["ok"], i2["value"] == i1["value"])))
+    k.ensures("prefix-monotone(reference)", z3.Implies(longer, z3.And(mono)))
 
 
 # ---------------------------------------------------------------------------
